@@ -174,6 +174,11 @@ func (j *Job) init() error {
 
 var Zero = time.Time{}
 
+// TimeKeyLayout is the layout of the timestamps that start the keys of
+// the time index.  It has a fixed width (unlike time.RFC3339Nano,
+// which drops trailing zeros) so that the keys sort chronologically.
+const TimeKeyLayout = "2006-01-02T15:04:05.000000000Z07:00"
+
 func (c *Cron) set(j *Job) error {
 
 	if j.Evict {
@@ -249,7 +254,7 @@ func (s *Cron) update(j *Job) (func(*bolt.Tx) error, error) {
 	oldTid := j.TId
 
 	next := j.at
-	ts := next.Format(time.RFC3339Nano)
+	ts := next.UTC().Format(TimeKeyLayout)
 	later := next.Sub(time.Now().UTC())
 	log.Printf("Cron.update %s to %s (%v) evict=%v", j.aid, ts, later, j.Evict)
 
@@ -367,7 +372,7 @@ func (s *Cron) work(part string) func(tx *bolt.Tx) error {
 		c := tx.Bucket([]byte("time" + part)).Cursor()
 
 		min := []byte("")
-		max := []byte(time.Now().UTC().Format(time.RFC3339Nano))
+		max := []byte(time.Now().UTC().Format(TimeKeyLayout))
 		limit := 10
 
 		for k, v := c.Seek(min); k != nil && bytes.Compare(k, max) <= 0; k, v = c.Next() {
